@@ -104,7 +104,11 @@ def lifecycle_induction(ctx):
     runs = [("base: LInit => IndInv", ["--init=LInit", "--inv=IndInv", "--length=0", "--next=LNext"], False),
             ("step: IndInv /\\ LNext => IndInv'", ["--init=IndInit", "--inv=IndInv", "--length=1", "--next=LNext"], False),
             ("IndInv => Safety", ["--init=IndInit", "--inv=Safety", "--length=0", "--next=LNext"], False),
-            ("guard: a second message breaks the induction", ["--init=IndInit", "--inv=IndInv", "--length=1", "--next=BadNext"], True)]
+            ("action invariant: IndInv /\\ LNext => the scalar of a started instance is unchanged",
+             ["--init=IndInit", "--inv=ScalarNeverChanges", "--length=1", "--next=LNext"], False),
+            ("guard: a second message breaks the induction", ["--init=IndInit", "--inv=IndInv", "--length=1", "--next=BadNext"], True),
+            ("guard: re-drawing the scalar of a restored instance breaks ScalarNeverChanges",
+             ["--init=IndInit", "--inv=ScalarNeverChanges", "--length=1", "--next=BadNext2"], True)]
     res = {}
     try:
         for name, args, expect_cex in runs:
